@@ -1254,7 +1254,7 @@ Proof.
   eapply IH. exact Hinv'.
 Qed.
 
-Lemma established_inv c ver : sysinv c (sys_established c ver m w) ps_init.
+Lemma established_inv c ver rel : sysinv c (sys_established c ver m w rel) ps_init.
 Proof.
   unfold sysinv, sys_established, ps_init, sysinv2.
   cbn [epA epB chAB chBA w_ab w_ba f_ab f_ba].
@@ -1283,22 +1283,22 @@ Qed.
 
 (** ** the theorems of the two-party system *)
 
-Theorem pair_safe c ver ops :
-  mon_pair ops (snd (sys_run c (sys_established c ver m w) ops)) = true.
+Theorem pair_safe c ver rel ops :
+  mon_pair ops (snd (sys_run c (sys_established c ver m w rel) ops)) = true.
 Proof.
-  unfold mon_pair. apply (pmon_run_inv c ops (sys_established c ver m w) ps_init).
+  unfold mon_pair. apply (pmon_run_inv c ops (sys_established c ver m w rel) ps_init).
   apply established_inv.
 Qed.
 
-Theorem window_respected c ver ops :
-  let s := fst (sys_run c (sys_established c ver m w) ops) in
+Theorem window_respected c ver rel ops :
+  let s := fst (sys_run c (sys_established c ver m w rel) ops) in
   nlen (chAB s) + rack_level (recv (sess (epB s))) + slevel (send (sess (epA s))) <= w /\
   nlen (chAB s) <= rlevel (recv (sess (epB s))) /\
   nlen (chBA s) + rack_level (recv (sess (epA s))) + slevel (send (sess (epB s))) <= w /\
   nlen (chBA s) <= rlevel (recv (sess (epA s))).
 Proof.
   cbv zeta.
-  destruct (sys_run_inv c ops _ _ (established_inv c ver)) as (p' & (HA & HB & Hd1 & Hd2) & _).
+  destruct (sys_run_inv c ops _ _ (established_inv c ver rel)) as (p' & (HA & HB & Hd1 & Hd2) & _).
   destruct Hd1 as (? & ? & ? & _ & _ & _ & _ & _ & _ & _ & _ & _ & _ & _ & _ & _ & Hwin1 & Hlev1 & _).
   destruct Hd2 as (? & ? & ? & _ & _ & _ & _ & _ & _ & _ & _ & _ & _ & _ & _ & _ & Hwin2 & Hlev2 & _).
   destruct HA as ((_ & (HsumA & _) & _) & _ & _ & HswA & _).
@@ -1350,8 +1350,8 @@ Proof.
     split; [rewrite Eack; exact Epa|exact Hrecv'].
 Qed.
 
-Theorem ack_enabled c ver ops x t :
-  let s := fst (sys_run c (sys_established c ver m w) ops) in
+Theorem ack_enabled c ver rel ops x t :
+  let s := fst (sys_run c (sys_established c ver m w rel) ops) in
   is_ack_due (sess (ep s x)) t = true -> 1 <= slevel (send (sess (ep s x))) ->
   exists b h p,
     snd (step (ep s x) (OOut (gatt_of c x) t POLL_CAP)) = RBytes b /\ hdr_decode b = Ok (h, p) /\
@@ -1359,7 +1359,7 @@ Theorem ack_enabled c ver ops x t :
     rack_level (recv (sess (fst (step (ep s x) (OOut (gatt_of c x) t POLL_CAP))))) = 0.
 Proof.
   cbv zeta.
-  destruct (sys_run_inv c ops _ _ (established_inv c ver)) as (p' & H2 & _).
+  destruct (sys_run_inv c ops _ _ (established_inv c ver rel)) as (p' & H2 & _).
   destruct x; cbn [ep gatt_of].
   - eapply ack_enabled_view. exact H2.
   - eapply ack_enabled_view. apply sysinv2_sym. exact H2.
